@@ -165,13 +165,16 @@ func newSession(config *Config, conn net.Conn, isClient bool) (*Session, error) 
 		return nil, err
 	}
 
+	// finish the initialisation before the event loop can see the session: once the
+	// callback is registered an error on the connection may close the session (and
+	// release queueManager) at any moment.
+	s.mu.Lock()
+	s.name = s.queueManager.path
+	s.mu.Unlock()
 	s.eventConn = s.dispatcher.newConnection(fd)
 	if err := s.eventConn.setCallback(s); err != nil {
 		return nil, err
 	}
-	s.mu.Lock()
-	s.name = s.queueManager.path
-	s.mu.Unlock()
 	//currently, netConn only using for get remote address and local address.
 	//maybe it could be optimized in the future
 	go s.send()
